@@ -22,7 +22,7 @@ import world as W
 ID = 'C11'
 LEVEL = 'exploration'
 N_QUICK = 1500
-N_THOROUGH = 60000
+N_THOROUGH = 20000
 ASSUMPTIONS = [
     'behaviour that is legitimately history dependent is held constant inside a scenario: import behaviour is per module, '
     'the peer never mutates module state on the doctest\'s behalf, environment and module availability do not change mid-history',
@@ -194,7 +194,7 @@ def generate(rng, tier):
             'recollect_after_propagation': True, 'env': env}
 
 
-N_SWEEPS_THOROUGH = 150
+N_SWEEPS_THOROUGH = 60
 SWEEP_RULE = ('for up to three doctests of one sampled world: *every ordered pair* (a, b), a == b included (the same object again), '
               'x what happens in a (nothing, exception, KeyboardInterrupt, sys.stdout replaced by a stream that is then closed, '
               'warnings turned into errors, early exit) x on_error of a; b and the closing probe are compared with fresh-process runs')
